@@ -100,7 +100,12 @@ def run_impl(case):
     problem = make_problem(case, log)
     try:
         alg = make_algorithm(problem, case["kind"])
-        designs = [Individual(list(v)) for v in case["designs"]]
+        if case.get("ndarray"):
+            # design vectors as float ndarrays (what CMA-ES / CEM hand to evaluate): a slice of one is a view, not a copy
+            import numpy as np
+            designs = [Individual(np.array([float(t) for t in v])) for v in case["designs"]]
+        else:
+            designs = [Individual(list(v)) for v in case["designs"]]
         seen = []
         snaps = []
         for b in case["batches"]:
@@ -363,7 +368,7 @@ def gen_case(rng, kind, quick, mode=None):
     if kind == "wc" and rng.random() < 0.1:
         batches.insert(rng.randint(0, len(batches)), [])        # an empty generation
     return {"kind": kind, "mode": mode, "signs": signs, "tol": tol, "objs": objs, "cons": cons, "designs": designs,
-            "batches": batches}
+            "batches": batches, "ndarray": rng.random() < 0.3}
 
 
 def gen_error_case(rng, kind, quick):
@@ -395,6 +400,13 @@ def record_algorithm_run(rng, kind, which, quick):
         if which == "nsga2":
             from artap.algorithm_NSGAII import NSGAII
             alg = NSGAII(problem, evaluator_type=et)
+        elif which in ("omopso", "smpso"):
+            # the swarm constructors take no evaluator_type: the evaluator is attached the way the base class does it.
+            # Every generation evaluates COPIES of the swarm (CopySelector: new objects, deep-copied feature dictionaries).
+            from artap.algorithm_swarm import OMOPSO, SMPSO
+            from artap.operators import WorstCaseEvaluator, GradientEvaluator
+            alg = (OMOPSO if which == "omopso" else SMPSO)(problem)
+            alg.evaluator = WorstCaseEvaluator(alg) if kind == "wc" else GradientEvaluator(alg)
         else:
             from artap.algorithm_genetic import EpsMOEA
             alg = EpsMOEA(problem, evaluator_type=et)
@@ -491,7 +503,7 @@ def run(ctx):
     runs = []
     n_runs = 6 if ctx.quick else 40
     for r in range(n_runs):
-        for which in ("nsga2", "epsmoea"):
+        for which in ("nsga2", "epsmoea", "omopso", "smpso"):
             for kind in ("wc", "grad"):
                 case, snaps, final = record_algorithm_run(rng, kind, which, ctx.quick)
                 runs.append((case, snaps, final))
